@@ -37,7 +37,8 @@ REG.classes["BaseStorage"] = {
     "__frozen__": ("authenticator", "clients"),
 }
 REG.classes["StorageAuthenticator"] = {}
-REG.classes["ConfigGlobal"] = {"subscription_limit": V.Int, "__frozen__": ("subscription_limit",)}
+REG.classes["ConfigGlobal"] = {"subscription_limit": V.Int, "fts_enabled": V.Bool, "max_limit": V.Int,
+                               "__frozen__": ("subscription_limit", "fts_enabled", "max_limit")}
 
 
 def _config(sx, st):
@@ -523,7 +524,9 @@ REG.unit(Unit(
                  ("pushed-under-own-id", "implies(%s, ghost('last_put_sub_id') == self.sub_id)" % PUSH),
                  ("no-eose-from-live-path", "ghost('n_eose_put') == 0 and ghost('n_other_put') == 0"),
              ],
-             raises={}),
+             # a failing output validator ends this notify task: fail-closed, nothing is pushed
+             raises={"Exception+": True},
+             exc_ensures={"Exception+": [("nothing-pushed-when-the-validator-fails", "ghost('n_event_put') == 0 and ghost('n_eose_put') == 0")]}),
     props=["C05", "C14"], ghost_init=ghost_live,
     canaries=[("never-pushes", "ghost('n_event_put') == 0")],
 )).obligation_props = []
